@@ -146,6 +146,8 @@ def run(tier, seed):
             per = [[(bytes(bytearray(r[:36]) + struct.pack("<H", rng.randrange(5)) + r[38:]) if rng.random() < l else r, p) for r, p in pk] for pk, l in zip(per, lvl)]
         else:
             per = [corrupt(rng, pk, l) for pk, l in zip(per, lvl)]
+        # links with their own RDH version (the `first header id seen` is per validator)
+        per = [[(bytes([6 if r[0] == 7 else 7]) + r[1:], p) for r, p in pk] if (i > 0 and rng.random() < 0.35) else pk for i, pk in enumerate(per)]
         # the dispatch id is the link id, or the FEE id in stave mode: the OTHER id may coincide between units (two staves read
         # out over link 0 of two CRUs; one FEE id seen on two links) and must play no role in the routing
         if s % 2 == 1:
@@ -248,6 +250,8 @@ def run(tier, seed):
             for li_, st in ((0, 1), (1, 33)):
                 per[li_] = [(bytes(bytearray(r[:2]) + struct.pack("<H", (6 << 12) | st) + r[4:]), p) for r, p in per[li_]]
         per = [pk if i == 0 else corrupt(rng, pk, rng.choice([0.1, 0.3])) for i, pk in enumerate(per)]
+        # every link has its own validator with its own notion of `the first header id seen`: links may come with different RDH versions
+        per = [[(bytes([6 if r[0] == 7 else 7]) + r[1:], p) for r, p in pk] if (i > 0 and rng.random() < 0.4) else pk for i, pk in enumerate(per)]
         mode = rng.choice([["check", "all", "its"], ["check", "sanity", "its"], ["check", "all"], ["check", "all", "its-stave"]])
         shared_link = s % 3 == 1
         if shared_link:
